@@ -1511,6 +1511,7 @@ func runC22(c *Ctx) {
 		c.check(initOK == 2, "range-to-read.initial", g.ID, p.Pos(g.Decl.Pos()), "without markers the whole request is served from the base file", "getRangeToRead no longer starts from (len, base): a file without tracked writes is not read entirely from the base")
 	}
 	checkRangeToReadAlwaysWalks(c, "range-to-read.always-walks")
+	checkTrackerTxnCommitted(c, "txn-committed")
 }
 
 func nos(s string) string { return strings.ReplaceAll(s, " ", "") }
